@@ -14,6 +14,7 @@
    against the clock value of the same loop pass. *)
 From Coq Require Import ZArith List Bool.
 From F8 Require Import C31.Spec_C31 C31.Timer C31.TimerProofs.
+From F8 Require C31.TimerUnlocked.
 Import ListNotations.
 Local Open Scope Z_scope.
 
@@ -47,9 +48,13 @@ Theorem c31_repeat : forall res ops, forallb op_wf ops = true ->
 Proof. exact c31_repeat_lemma. Qed.
 Print Assumptions c31_repeat.
 
-(* Clause 4: an event that was pending when clear() was called never runs afterwards (clear
-   and the loop body exclude each other through _spin_lock, so "at arbitrary moments" means
-   between two loop passes). *)
+(* Clause 4: an event that was pending when clear() was called never runs afterwards.  clear()
+   is a step of ANY thread, placed anywhere between two other steps of [ops]; a pass of the timer
+   loop over a due event (pop, callback, push-back of a repeating event) is one step because the
+   loop holds _spin_lock across all of it and clear() takes the same lock: "at arbitrary moments"
+   therefore means between two such steps - a clear() issued while a callback runs takes effect
+   after the push-back and removes the re-queued event (see c31_clear_unlocked_refuted for the
+   loop without that). *)
 Theorem c31_clear : forall res ops, forallb op_wf ops = true ->
   ok_clr (verd (c31_mon (hist (run res ops init)))) = true.
 Proof. exact c31_clear_lemma. Qed.
@@ -65,6 +70,18 @@ Theorem c31_clear_direct : forall res ops1 now ops2,
     forall cb' t r, ~ In (HFire id cb' t r) h'.
 Proof. exact c31_clear_direct2_lemma. Qed.
 Print Assumptions c31_clear_direct.
+
+(* What the lock is for: in the VARIANT loop of C31/TimerUnlocked.v, which releases the lock
+   before the callback and re-acquires it only for the push-back, a clear() that falls between the
+   two halves misses the running event; it is re-queued and runs again: clause 4 fails. *)
+Theorem c31_clear_unlocked_refuted :
+  exists res ops,
+    forallb op_wf ops = true /\
+    hist (TimerUnlocked.base (TimerUnlocked.urun res ops TimerUnlocked.uinit)) =
+      [HSched 0 7 true 5 0; HFire 0 7 5000000 true; HClear 5000000 0; HFire 0 7 10000000 true] /\
+    ok_clr (verd (c31_mon (hist (TimerUnlocked.base (TimerUnlocked.urun res ops TimerUnlocked.uinit))))) = false.
+Proof. exact TimerUnlocked.c31_clear_unlocked_refuted_lemma. Qed.
+Print Assumptions c31_clear_unlocked_refuted.
 
 (* Extra clause (not in the property text, but needed for the first four to mean anything):
    whenever the timer thread decides to sleep, no pending event is due. *)
@@ -87,8 +104,9 @@ Theorem c31_tiebreak_complete : forall l1 e l2,
 Proof. exact top_complete_lemma. Qed.
 Print Assumptions c31_tiebreak_complete.
 
-(* The runs used by the correspondence check (one harness action, then the thread runs until it
-   sleeps; [pref] steers the tie-breaking): the fuel given to the wait loop always suffices and
+(* The runs used by the correspondence check (one harness action - schedule, clock advance,
+   clear, or "SPark": clear() from a second thread while a callback is kept from returning - then
+   the thread runs until it sleeps; [pref] steers the tie-breaking): the fuel given to the wait loop always suffices and
    the history satisfies the oracle. *)
 Theorem c31_script : forall res t0 pref sc, 0 <= t0 -> forallb sop_wf sc = true ->
   match run_script res t0 pref sc with
